@@ -5,8 +5,9 @@
                        (services/ja3/crypto/tls/conn.go), on the list of records sent
      parse_hello     : clientHelloMsg.unmarshal (handshake_messages.go), restricted to the
                        fields JA3 / readClientHello read, with every rejection branch
-     recorded        : readClientHello up to the GetCertificate callback (handshake_server.go)
-                       + the callback of services/https.go (JA3 string, server name)
+     recorded        : readClientHello up to the GetConfigForClient callback (handshake_server.go:
+                       called right after the hello is parsed, before any negotiation)
+                       + that callback in services/https.go (JA3 string, server name)
      ja3_string      : ClientHelloInfo.JA3 (common.go)
    Specification side (independent of the parser):
      hello, encode_hello, fragment, spec_ja3, spec_sni, same_modulo_grease
@@ -58,16 +59,17 @@ Definition in_grease_table (v : N) : bool := existsb (N.eqb v) grease_table.
 Record info := mkInfo {
   i_vers : N; i_ciphers : list N; i_exts : list N; i_curves : list N; i_points : bytes;
   i_sni : bytes;
-  i_comp : bytes;          (* compression methods: read by readClientHello *)
-  i_reneg : bytes          (* secureRenegotiation: read by readClientHello *)
+  i_comp : bytes;          (* compression methods: read by readClientHello after the callback *)
+  i_reneg : bytes          (* secureRenegotiation: read by readClientHello after the callback *)
 }.
 
-(* as coded: only the extension loop consults greaseTable *)
+(* as coded: the cipher, extension and curve loops consult greaseTable, the point loop does not *)
+Definition drop_grease (l : list N) : list N := filter (fun v => negb (in_grease_table v)) l.
 Definition ja3_string (i : info) : bytes :=
   dec (i_vers i) ++ C_comma ::
-  dash_list (i_ciphers i) ++ C_comma ::
-  dash_list (filter (fun v => negb (in_grease_table v)) (i_exts i)) ++ C_comma ::
-  dash_list (i_curves i) ++ C_comma ::
+  dash_list (drop_grease (i_ciphers i)) ++ C_comma ::
+  dash_list (drop_grease (i_exts i)) ++ C_comma ::
+  dash_list (drop_grease (i_curves i)) ++ C_comma ::
   dash_list (i_points i).
 
 (* ---------- clientHelloMsg.unmarshal ---------- *)
@@ -237,17 +239,18 @@ Definition parse_hello (data : bytes) : res info :=
   | _ => Reject
   end.
 
-(* ---------- readClientHello up to GetCertificate + the callback in https.go ---------- *)
-Definition MIN_VERSION := 769.   (* VersionTLS10: Config.minVersion() of an empty Config *)
+(* ---------- readClientHello up to GetConfigForClient + the callback in https.go ---------- *)
+Definition MIN_VERSION := 769.   (* VersionTLS10: below it the handshake fails later, in mutualVersion *)
 
-(* Some (JA3 string, server name) = the callback ran; None = the events carry empty fields *)
+(* readClientHello: msg, err := c.readHandshake() (failure: nothing recorded); the message is a
+   *clientHelloMsg; c.config.GetConfigForClient(hs.clientHelloInfo()) runs at once - before
+   mutualVersion, the compression and the renegotiation checks - and the https callback stores
+   hello.JA3Digest() and hello.ServerName.  clientHelloInfo copies vers, cipherSuites,
+   extensions, supportedCurves, supportedPoints and serverName of the parsed message.
+   Some (JA3 string, server name) = the callback ran; None = the events carry empty fields *)
 Definition recorded (msg : bytes) : res (option (bytes * bytes)) :=
   match parse_hello msg with
-  | Ok i =>
-      if i_vers i <? MIN_VERSION then Ok None                   (* mutualVersion fails *)
-      else if negb (existsb (N.eqb 0) (i_comp i)) then Ok None  (* no null compression *)
-      else if negb (blen (i_reneg i) =? 0) then Ok None         (* non-empty renegotiation_info *)
-      else Ok (Some (ja3_string i, i_sni i))
+  | Ok i => Ok (Some (ja3_string i, i_sni i))
   | Reject => Ok None
   | Fuel => Fuel
   end.
@@ -386,7 +389,8 @@ Definition spec_ja3 (h : hello) : bytes :=
   dash_list (no_grease (spec_groups h)) ++ C_comma ::
   dash_list (spec_points h).
 
-(* what the code computes instead, expressed on the hello: GREASE left out of extensions only *)
+(* what the code computed before fix fea246c, expressed on the hello: GREASE left out of the
+   extensions only.  Kept so that a regression gets its own signature in Check.v *)
 Definition ja3_exts_only (h : hello) : bytes :=
   dec (h_vers h) ++ C_comma ::
   dash_list (h_ciphers h) ++ C_comma ::
@@ -439,11 +443,6 @@ Definition wf_hello (h : hello) : bool :=
   (count is_points (exts_of h) <=? 1)%nat &&
   (blen (enc_body h) <=? MAX_HANDSHAKE).
 
-(* a hello the server negotiates with: offers null compression, an initial handshake
-   (empty renegotiation_info), a version the server supports *)
-Definition negotiable (h : hello) : bool :=
-  existsb (N.eqb 0) (h_comp h) && (blen (i_reneg (info_of h)) =? 0).
-
 (* two hellos that differ only in their GREASE values *)
 Fixpoint same_mod_grease_list (a b : list N) : bool :=
   match a, b with
@@ -463,10 +462,9 @@ Definition same_modulo_grease (h1 h2 : hello) : bool :=
 Definition frag_ok (vers : N) (cuts : list nat) (msg : bytes) : Prop :=
   vers < 4096 /\ Forall (fun r => blen (r_payload r) <= MAX_PLAINTEXT) (fragment vers cuts msg).
 
-(* every well-formed negotiable hello from SSL 3.0 up, however it is cut into records: the
-   events carry the specification's JA3 string (its MD5) and the SNI sent *)
+(* every well-formed hello, whatever its legacy version and however it is cut into records:
+   the events carry the specification's JA3 string (its MD5) and the SNI sent *)
 Definition full_statement : Prop :=
   forall h vers cuts,
-    wf_hello h = true -> negotiable h = true -> 768 <= h_vers h ->
-    frag_ok vers cuts (encode_hello h) ->
+    wf_hello h = true -> frag_ok vers cuts (encode_hello h) ->
     served (fragment vers cuts (encode_hello h)) = Ok (Some (spec_ja3 h, spec_sni h)).
